@@ -6,12 +6,12 @@
         → {"spec":[cls..]          `resolve` (the order stated by C12)
            "mech":[[cls,prov]..]   `Globals.lookup` on the fresh namespace of the build after the stores (LOAD_GLOBAL / module-level LOAD_NAME)
            "cbody":[[cls,prov]..]} `Globals.lookupClassBody` with the given class locals}
-    q = "split":   {"code":text} → {"exec":[piece..],"eval":text,"multi":bool}     `splitCode`, `multiLineL`
+    q = "split":   {"stmts":[[kind,text]..]}   kind = "expr" | "other": the top-level statements of Python's parse of the code
+        → {"exec":[text..],"eval":text,"multi":bool} | {"error":"syntax","multi":bool}        `splitStmts`, `multiStmt`
     q = "fstr":    {"explicit":bool,"s":text} → {"code":text|null}                 `normFstr`
-    q = "hist":    {"builtins":[..],"steps":[{"build":k,"syms":[..],"cfg":[..],"path":text,"code":text,
+    q = "hist":    {"builtins":[..],"steps":[{"build":k,"syms":[..],"cfg":[..],"path":text,"code":text,"stmts":n,
                      "persistent":bool,"defs":[..],"fails":bool,"names":[..]}..]}
-        → {"steps":[{"fromModule":bool,"lookups":[[cls,prov]..],"published":bool,"fresh":[[cls,prov]..]}..],
-           "noReuse":bool}
+        → {"steps":[{"lookups":[[cls,prov]..],"published":bool,"publishes":bool,"fresh":[[cls,prov]..]}..]}
           `evalStep` folded over the steps from the empty registry; "published": the key of the step is
           in the registry afterwards; "fresh": the lookups in `freshGlobals`; cls ∈ def|sym|cfg|builtin|nameError|injected
 -/
@@ -70,11 +70,21 @@ def opResolve (j : Json) : Except String Json := do
     ("mech", .arr (names.map (fun n => foundJ (Globals.lookup bi g n))).toArray),
     ("cbody", .arr (names.map (fun n => foundJ (Globals.lookupClassBody bi locals g n))).toArray)])
 
+def stmtOf (j : Json) : Except String Stmt :=
+  match j with
+  | .arr #[.str "expr", .str t] => .ok (.expr t)
+  | .arr #[.str "other", .str t] => .ok (.other t)
+  | _ => .error s!"bad statement {j.compress}"
+
 def opSplit (j : Json) : Except String Json := do
-  let code ← strOf j "code"
-  let r := splitCode code
-  pure (Json.mkObj [("exec", .arr (r.1.map Json.str).toArray), ("eval", .str r.2),
-                    ("multi", .bool (multiLineL code.toList))])
+  let body ← match j.getObjVal? "stmts" with
+    | .ok (.arr a) => a.toList.mapM stmtOf
+    | _ => .error "stmts expected"
+  match splitStmts body with
+  | some (ex, ev) =>
+    pure (Json.mkObj [("exec", .arr (ex.map (fun s => Json.str s.src)).toArray), ("eval", .str ev),
+                      ("multi", .bool (multiStmt body))])
+  | none => pure (Json.mkObj [("error", .str "syntax"), ("multi", .bool (multiStmt body))])
 
 def opFstr (j : Json) : Except String Json := do
   let s ← strOf j "s"
@@ -94,7 +104,7 @@ def stepOf (j : Json) : Except String StepReq := do
   let path ← strOf j "path"
   let code ← strOf j "code"
   pure { step := ({ build := natOf j "build", syms := syms, cfg := cfg },
-                  { path := path.toList, code := code.toList, persistent := boolOf j "persistent" true,
+                  { path := path.toList, code := code.toList, stmts := natOf j "stmts", persistent := boolOf j "persistent" true,
                     defs := defs, fails := boolOf j "fails" false }),
          names := names }
 
@@ -103,24 +113,17 @@ def histGo (bi : List String) : Registry → List StepReq → List Json
   | reg, s :: rest =>
     let r := evalStep reg s.step.1 s.step.2
     Json.mkObj [
-      ("fromModule", .bool (fromModule reg s.step.2)),
+      ("publishes", .bool (publishes s.step.2)),
       ("lookups", .arr (s.names.map (fun n => foundJ (Globals.lookup bi r.1 n))).toArray),
       ("fresh", .arr (s.names.map (fun n => foundJ (Globals.lookup bi (freshGlobals s.step) n))).toArray),
       ("published", .bool (Registry.get r.2 s.step.2.key).isSome)] :: histGo bi r.2 rest
-
-/-- decidable form of `NoReuse` for the answer -/
-def noReuseB : List Step → Bool
-  | [] => true
-  | s :: rest =>
-    (!publishes s || rest.all (fun t => !(t.2.persistent && decide (t.2.key = s.2.key)))) && noReuseB rest
 
 def opHist (j : Json) : Except String Json := do
   let bi ← strList j "builtins"
   let steps ← match j.getObjVal? "steps" with
     | .ok (.arr a) => a.toList.mapM stepOf
     | _ => .error "steps expected"
-  pure (Json.mkObj [("steps", .arr (histGo bi [] steps).toArray),
-                    ("noReuse", .bool (noReuseB (steps.map (·.step))))])
+  pure (Json.mkObj [("steps", .arr (histGo bi [] steps).toArray)])
 
 end AY.Resolve.Codec
 
